@@ -38,8 +38,8 @@ impl<'a> SimdBestFirstVisitor<u32, SimdAabb> for PointVisitor<'a> {
 pub fn exec(func: &str, a: &mut Args) -> String {
     if func.starts_with("composite2_") { return comp2::exec(func, a); }
     if func.starts_with("composite_") { return comp::exec(func, a); }
-    if func.starts_with("lane3_") || func.starts_with("nl3_") || func.starts_with("dv3_") { return lanes3::exec(func, a); }
-    if func.starts_with("lane2_") || func.starts_with("nl2_") || func.starts_with("dv2_") { return lanes2::exec(func, a); }
+    if func.starts_with("lane3_") || func.starts_with("nl3_") || func.starts_with("dv3_") || func.starts_with("tv3_") { return lanes3::exec(func, a); }
+    if func.starts_with("lane2_") || func.starts_with("nl2_") || func.starts_with("dv2_") || func.starts_with("tv2_") { return lanes2::exec(func, a); }
     if func.starts_with("hf2_") { return hf2::exec(func, a); }
     match func {
         "bf_point" => {
@@ -81,6 +81,8 @@ pub fn gen(r: &mut Rng, thorough: bool) -> Vec<(String, String)> {
     v.extend(lanes3::gen_dv(r, thorough));
     v.extend(lanes2::gen_dv(r, thorough));
     v.extend(hf2::gen(r, thorough));
+    v.extend(lanes3::gen_tv(r, thorough));
+    v.extend(lanes2::gen_tv(r, thorough));
     v
 }
 
@@ -1227,7 +1229,8 @@ pub mod lanes3 {
     use crate::p3::bounding_volume::{Aabb, SimdAabb};
     use crate::p3::math::{SimdBool, SimdReal};
     use crate::p3::query::{NonlinearRigidMotion, Ray, SimdRay, DefaultQueryDispatcher};
-    use crate::p3::query::details::CompositeShapeAgainstAnyDistanceVisitor;
+    use crate::p3::query::details::{CompositeShapeAgainstAnyDistanceVisitor, TOICompositeShapeShapeBestFirstVisitor};
+    use crate::p3::query::ShapeCastOptions;
     use crate::p3::partitioning::{SimdBestFirstVisitStatus, SimdBestFirstVisitor};
     use crate::p3::shape::{Ball, Compound, SharedShape};
     use crate::p3::simba::simd::SimdValue;
@@ -1266,8 +1269,42 @@ pub mod lanes3 {
                         format!("{} {}", (0..4).map(|i| ff(weights.extract(i))).collect::<Vec<_>>().join(" "), fmask(mask)),
                     _ => "exit".into(),
                 } }
+            // the REAL TOICompositeShapeShapeBestFirstVisitor (new + visit on an internal node)
+            "tv3_visit" => { let _aabb2 = aabb(a); let vel = d3::v(a); let mt = a.f(); let td = a.f(); let bv = simd(a); let pos12 = d3::iso(a); let s = super::super::c03::sh(a);
+                let g2 = super::super::c03::dynsh(&s);
+                let g1 = Compound::new(vec![(Isometry::identity(), SharedShape::new(Ball::new(0.5)))]);
+                let d = DefaultQueryDispatcher;
+                let opts = ShapeCastOptions { max_time_of_impact: mt, target_distance: td, stop_at_penetration: true, compute_impact_geometry_on_penetration: true };
+                let mut vis = TOICompositeShapeShapeBestFirstVisitor::new(&d, &pos12, &vel, &g1, &*g2, opts);
+                match vis.visit(f64::MAX, &bv, None) {
+                    SimdBestFirstVisitStatus::MaybeContinue { weights, mask, .. } =>
+                        (0..4).map(|i| format!("{} {}", b(mask.extract(i)), ff(weights.extract(i)))).collect::<Vec<_>>().join(" "),
+                    _ => "exit".into(),
+                } }
             _ => "nofn".into(),
         }
+    }
+    /// the lane part of the linear shape-cast visitor (`tv3_visit`): same boxes as `gen_dv`, velocities towards / past / away from
+    /// the lane boxes, hits exactly at max_toi, target distances 0 / 0.25
+    pub fn gen_tv(r: &mut Rng, thorough: bool) -> Vec<(String, String)> {
+        use crate::p3::bounding_volume::BoundingVolume;
+        let mut v = Vec::new();
+        let n = if thorough { 3000 } else { 400 };
+        for it in 0..n {
+            let lat = it % 2 == 0;
+            let s = super::super::c03::gen_shape(r, lat, &[0, 1, 3, 4, 4, 5, 5]);
+            let pos12 = if r.below(4) == 0 { Isometry::identity() } else if lat && r.bool() { Isometry::translation(*r.pick(&[-2.0, 0.5, 3.0]), *r.pick(&[0.0, 1.25]), *r.pick(&[-0.75, 2.0])) } else { d3::gen_iso(r, lat, 10.0) };
+            let g2 = super::super::c03::dynsh(&s);
+            let ab = g2.compute_aabb(&pos12);
+            let xs: Vec<Aabb> = (0..4).map(|_| match r.below(5) { 0 => gen_box(r, lat), 1 => near_box(r, lat, &ab).merged(&gen_box(r, lat)), _ => near_box(r, lat, &ab) }).collect();
+            let x0 = xs[r.below(4) as usize];
+            let to = na::center(&x0.mins, &x0.maxs) - ab.center();
+            let k = r.below(3) as usize;
+            let vel = match r.below(5) { 0 => to * *r.pick(&[0.5, 1.0, 2.0]), 1 => -to, 2 => { let mut d = Vector::zeros(); d[k] = *r.pick(&[1.0, -1.0, 0.5]); d }, 3 => { let mut d = to; d[k] = 0.0; d }, _ => d3::gen_v(r, lat, 2.0) };
+            let mt = *r.pick(&[0.5, 1.0, 2.0, 4.0, 1.0e3]); let td = *r.pick(&[0.0, 0.0, 0.25]);
+            v.push(("tv3_visit".into(), format!("{} {} {} {} {} {} {}", haabb(&ab), d3::hv(&vel), hx(mt), hx(td), xs.iter().map(haabb).collect::<Vec<_>>().join(" "), d3::hiso(&pos12), super::super::c03::hsh(&s))));
+        }
+        v
     }
     /// the lane part of the composite distance visitor: other shape with an off-centre box (triangles, segments, capsules built
     /// from arbitrary points), arbitrary relative pose, lane boxes touching / overlapping / missing the other shape's box by
@@ -1352,7 +1389,8 @@ pub mod lanes2 {
     use crate::p2::bounding_volume::{Aabb, SimdAabb};
     use crate::p2::math::{SimdBool, SimdReal};
     use crate::p2::query::{NonlinearRigidMotion, Ray, SimdRay, DefaultQueryDispatcher};
-    use crate::p2::query::details::CompositeShapeAgainstAnyDistanceVisitor;
+    use crate::p2::query::details::{CompositeShapeAgainstAnyDistanceVisitor, TOICompositeShapeShapeBestFirstVisitor};
+    use crate::p2::query::ShapeCastOptions;
     use crate::p2::partitioning::{SimdBestFirstVisitStatus, SimdBestFirstVisitor};
     use crate::p2::shape::{Ball, Compound, SharedShape};
     use crate::p2::simba::simd::SimdValue;
@@ -1390,8 +1428,40 @@ pub mod lanes2 {
                         format!("{} {}", (0..4).map(|i| ff(weights.extract(i))).collect::<Vec<_>>().join(" "), fmask(mask)),
                     _ => "exit".into(),
                 } }
+            "tv2_visit" => { let _aabb2 = aabb(a); let vel = d2::v(a); let mt = a.f(); let td = a.f(); let bv = simd(a); let pos12 = d2::iso(a); let s = super::comp2::sh(a);
+                let g2 = super::comp2::dynsh(&s);
+                let g1 = Compound::new(vec![(Isometry::identity(), SharedShape::new(Ball::new(0.5)))]);
+                let d = DefaultQueryDispatcher;
+                let opts = ShapeCastOptions { max_time_of_impact: mt, target_distance: td, stop_at_penetration: true, compute_impact_geometry_on_penetration: true };
+                let mut vis = TOICompositeShapeShapeBestFirstVisitor::new(&d, &pos12, &vel, &g1, &*g2, opts);
+                match vis.visit(f64::MAX, &bv, None) {
+                    SimdBestFirstVisitStatus::MaybeContinue { weights, mask, .. } =>
+                        (0..4).map(|i| format!("{} {}", b(mask.extract(i)), ff(weights.extract(i)))).collect::<Vec<_>>().join(" "),
+                    _ => "exit".into(),
+                } }
             _ => "nofn".into(),
         }
+    }
+    /// 2-D twin of `lanes3::gen_tv`
+    pub fn gen_tv(r: &mut Rng, thorough: bool) -> Vec<(String, String)> {
+        use crate::p2::bounding_volume::BoundingVolume;
+        let mut v = Vec::new();
+        let n = if thorough { 3000 } else { 400 };
+        for it in 0..n {
+            let lat = it % 2 == 0;
+            let s = if r.below(3) == 0 { let (p, q) = (d2::gen_p(r, lat, 2.0), d2::gen_p(r, lat, 2.0)); super::comp2::Sh2::Segment(p, q + Vector::new(0.25, 0.0)) } else { super::comp2::gen_other(r, lat) };
+            let pos12 = if r.below(4) == 0 { Isometry::identity() } else if lat && r.bool() { Isometry::translation(*r.pick(&[-2.0, 0.5, 3.0]), *r.pick(&[0.0, 1.25])) } else { d2::gen_iso(r, lat, 10.0) };
+            let g2 = super::comp2::dynsh(&s);
+            let ab = g2.compute_aabb(&pos12);
+            let xs: Vec<Aabb> = (0..4).map(|_| match r.below(5) { 0 => gen_box(r, lat), 1 => near_box(r, lat, &ab).merged(&gen_box(r, lat)), _ => near_box(r, lat, &ab) }).collect();
+            let x0 = xs[r.below(4) as usize];
+            let to = na::center(&x0.mins, &x0.maxs) - ab.center();
+            let k = r.below(2) as usize;
+            let vel = match r.below(5) { 0 => to * *r.pick(&[0.5, 1.0, 2.0]), 1 => -to, 2 => { let mut d = Vector::zeros(); d[k] = *r.pick(&[1.0, -1.0, 0.5]); d }, 3 => { let mut d = to; d[k] = 0.0; d }, _ => d2::gen_v(r, lat, 2.0) };
+            let mt = *r.pick(&[0.5, 1.0, 2.0, 4.0, 1.0e3]); let td = *r.pick(&[0.0, 0.0, 0.25]);
+            v.push(("tv2_visit".into(), format!("{} {} {} {} {} {} {}", haabb(&ab), d2::hv(&vel), hx(mt), hx(td), xs.iter().map(haabb).collect::<Vec<_>>().join(" "), d2::hiso(&pos12), super::comp2::hsh(&s))));
+        }
+        v
     }
     /// 2-D twin of `lanes3::gen_dv`
     pub fn gen_dv(r: &mut Rng, thorough: bool) -> Vec<(String, String)> {
